@@ -120,7 +120,18 @@ struct FaultSys : StrSys {
             const S &a = *slots[s].obj();
             const S &b = slots[1 - s].alive ? *slots[1 - s].obj() : other_const;
             Snap before[2] = {snap(0), snap(1)};
+            // reference results of the whole battery before any fault is injected in this state: a failed call must not
+            // influence what later calls return (state left behind in a static or thread-local table, a half-reset cache)
+            std::vector<std::string> reference(g_ops.size());
+            for (size_t oi = 0; oi < g_ops.size(); ++oi) {
+                Held *h = nullptr;
+                vf::Outcome oc = vf::guard([&] { h = g_ops[oi].make(a, b); });
+                reference[oi] = oc.ok() && h ? "=" + h->bytes() : std::string("!") + vf::outkind_name(oc.kind);
+                if (h) LIB(delete h);
+            }
+            size_t op_index = 0;
             for (auto &op : g_ops) {
+                const size_t oi = op_index++;
                 // std::basic_ostream catches exceptions raised while it grows its own buffer and turns them into badbit: those
                 // allocations belong to the standard library, not to string_theory, so these two calls are not fault-injected
                 if (op.name.find("ostringstream") != std::string::npos) continue;
@@ -136,6 +147,11 @@ struct FaultSys : StrSys {
                     vf::Outcome oc = vf::guard([&] { h = op.make(a, b); });
                     g_fault_k = -1;
                     if (k < 0) {
+                        std::string now = oc.ok() && h ? "=" + h->bytes() : std::string("!") + vf::outkind_name(oc.kind);
+                        if (now != reference[oi])
+                            f.push_back(Fail{vf::strf("c19:%s:result-differs-after-earlier-failed-calls", op.name.c_str()),
+                                             vf::strf("%s on s%d = %s returns something else than before the allocation faults injected into the "
+                                                      "preceding operations of this state", op.name.c_str(), s, vf::vis(model[s]).c_str())});
                         n = g_lib_allocs;
                         max_allocs_const = std::max(max_allocs_const, n);
                         ++n_const_ops;
@@ -368,6 +384,12 @@ static void other_scenarios()
     SCN("hex_decode(80 digits)", ST::char_buffer x = ST::hex_decode(S::from_validated(hex80.data(), hex80.size())); (void)x);
     SCN("base64_encode(40 bytes)", S x = ST::base64_encode(data40.data(), data40.size()); (void)x);
     SCN("base64_decode(36 chars)", ST::char_buffer x = ST::base64_decode(S::from_validated(b64.data(), b64.size())); (void)x);
+    SCN("hex_decode(80 digits, caller buffer)", char out[64]; if (ST::hex_decode(S::from_validated(hex80.data(), hex80.size()), out, sizeof out) != 40) throw std::runtime_error("wrong length"));
+    SCN("hex_decode(80 digits, size query)", if (ST::hex_decode(S::from_validated(hex80.data(), hex80.size()), nullptr, 0) != 40) throw std::runtime_error("wrong length"));
+    SCN("base64_decode(36 chars, caller buffer)", char out[64]; if (ST::base64_decode(S::from_validated(b64.data(), b64.size()), out, sizeof out) != 26) throw std::runtime_error("wrong length"));
+    SCN("base64_decode(36 chars, size query)", if (ST::base64_decode(S::from_validated(b64.data(), b64.size()), nullptr, 0) != 26) throw std::runtime_error("wrong length"));
+    SCN("hex_encode(char_buffer of 40)", S x = ST::hex_encode(ST::char_buffer(data40.data(), data40.size())); (void)x);
+    SCN("base64_encode(char_buffer of 40)", S x = ST::base64_encode(ST::char_buffer(data40.data(), data40.size())); (void)x);
     SCN("utf8_to_utf16(long)", auto x = ST::utf8_to_utf16(u8long.data(), u8long.size()); (void)x);
     SCN("utf8_to_utf32(long)", auto x = ST::utf8_to_utf32(u8long.data(), u8long.size()); (void)x);
     SCN("utf8_to_wchar(long)", auto x = ST::utf8_to_wchar(u8long.data(), u8long.size()); (void)x);
